@@ -154,6 +154,21 @@ pub fn run_dec2(w: &[&str]) -> String {
     let mut d2 = Decoder::new(&input);
     d2.set_position(pos);
     let c = drain(Tokenizer::from(d2));
+    // a clone taken after k tokens continues where the original stands (both kinds of tokenizer): k tokens ++ the clone's == the whole
+    for k in [0usize, 1, 2, 5] {
+        let mut d3 = Decoder::new(&input);
+        d3.set_position(pos);
+        for owned in [false, true] {
+            let mut head = Vec::new();
+            let mut t: Tokenizer<'_, '_> = if owned { let mut d4 = Decoder::new(&input); d4.set_position(pos); Tokenizer::from(d4) } else { d3.set_position(pos); d3.tokens() };
+            let mut failed = false;
+            for _ in 0 .. k { match t.next() { Some(Ok(x)) => head.push(show(&x)), Some(Err(_)) => { failed = true; break } None => break } }
+            if failed { continue }
+            let rest = drain(t.clone());
+            let joined = if head.is_empty() { rest.clone() } else if rest.starts_with("- ") { format!("{}{}", head.join(","), &rest[1..]) } else { format!("{},{}", head.join(","), rest) };
+            if joined != a { return format!("{} | {} | clone-after-{}{} {}", a, b, k, if owned { "-owned" } else { "" }, joined) }
+        }
+    }
     format!("{} | {} | {}", a, b, c)
 }
 
